@@ -7,7 +7,9 @@
 From WK Require Import Base.Base.
 From WK Require Import Gen.Consts_C15 Gen.Consts_C17 Model.RuntimeMeta Model.ChanMigration Model.ChanMigration_C17.
 From WK Require Import Proof.RuntimeMeta Proof.ChanMigration Proof.ChanMigration_cmds Proof.ChanMigration_inv
-                       Proof.ChanMigration_witness.
+                       Proof.ChanMigration_step Proof.ChanMigration_meta Proof.ChanMigration_trace
+                       Proof.ChanMigration_monitor Proof.ChanMigration_link Proof.ChanMigration_temporal
+                       Proof.ChanMigration_case Proof.ChanMigration_witness.
 Open Scope N_scope.
 
 (* ---- 1. a cutover commits only with a matching drain proof ---------------------------------------
@@ -106,6 +108,24 @@ Theorem c17_valid_meta_meaning :
 Proof. exact validate_meaning. Qed.
 Print Assumptions c17_valid_meta_meaning.
 
+(* MinISR stays satisfiable: a task+meta command applied to a stored (normalized) row keeps MinISR and
+   never shrinks the ISR; the stage function stores normalizeUint64Set of the mutator's ISR. *)
+Theorem c17_isr_not_shrunk :
+  forall c t m t' m',
+    ssorted (rm_isr m) ->
+    mutate_task_meta c t m = Ok (t', m') ->
+    rm_min_isr m' = rm_min_isr m
+    /\ (length (rm_isr m) <= length (normalizeUint64Set (rm_isr m')))%nat.
+Proof. exact mutate_isr. Qed.
+Print Assumptions c17_isr_not_shrunk.
+
+Theorem c17_stored_isr :
+  forall ex nm,
+    rm_isr (bumpRuntimeRoute ex (normalizeChannelRuntimeMeta nm) true) = normalizeUint64Set (rm_isr nm)
+    /\ rm_min_isr (bumpRuntimeRoute ex (normalizeChannelRuntimeMeta nm) true) = rm_min_isr nm.
+Proof. exact stored_isr. Qed.
+Print Assumptions c17_stored_isr.
+
 (* ---- 6. terminal tasks are immutable by the task+meta commands ----------------------------------------- *)
 Theorem c17_terminal_immutable_by_meta_cmds :
   forall d cs c cs' h t,
@@ -116,6 +136,66 @@ Theorem c17_terminal_immutable_by_meta_cmds :
     loadChannelMigrationTask d cs' (tguard_key (tr_guard h)) = Some t.
 Proof. exact stage_terminal_immutable. Qed.
 Print Assumptions c17_terminal_immutable_by_meta_cmds.
+
+(* ---- the temporal reading, under executor discipline -------------------------------------------------------
+
+   FULL STATEMENT (false, see section 7): in every history, once a task is committed / promoted no
+   AbortChannelMigration on it is accepted later.
+   PARTIAL: it holds for histories of one-command batches that respect executor discipline
+   ([history_disciplined]: no ResetChannelWriteFenceToPreCutover on, and no phase / embedded-flag
+   change by Claim/Advance of, a task that is in a post-commit phase — what the migration executor
+   does): once the cutover of a task is done ([cutover_locked]: phase VerifyNewLeader /
+   VerifyMembership / ClearFence, not the embedded leader-transfer leg of a replica replacement)
+   it stays done for as long as the row exists and no abort on it is accepted. *)
+Theorem c17_cutover_locked_step :
+  forall d c k t,
+    db_inv d -> disciplined d c ->
+    task_get (db_tasks d) k = Some t -> cutover_locked t = true ->
+    match task_get (db_tasks (fst (apply_one d c))) k with
+    | None => True
+    | Some t' => cutover_locked t' = true
+    end.
+Proof. exact locked_step. Qed.
+Print Assumptions c17_cutover_locked_step.
+
+Theorem c17_no_abort_after_commit_partial :
+  forall cs d k t,
+    db_inv d -> history_disciplined d cs ->
+    task_get (db_tasks d) k = Some t -> cutover_locked t = true ->
+    no_abort_while_present d k cs.
+Proof. exact no_abort_after_commit. Qed.
+Print Assumptions c17_no_abort_after_commit_partial.
+
+(* ---- the monitor is the predicate of these theorems ----------------------------------------------------------
+
+   [model_trace chs db_empty cs]: what the harness would print if the implementation were the model
+   (one-command batches cs, channel alphabet chs).  On every such trace the monitor returns 0, 2 (K1)
+   or 3 (K2): never 1, never 4; it returns 0 when the history is disciplined.  Hence
+   (c17_case_link) on a case file of one-command batches with C17_mismatch = false the verdict is 0, 2
+   or 3: a code 1 (or 4) there means the implementation left the model. *)
+Theorem c17_model_satisfies_monitor :
+  forall chs cs, Forall (covers chs) cs -> good (C17_monitor_on (model_trace chs db_empty cs)).
+Proof. exact model_satisfies_monitor. Qed.
+Print Assumptions c17_model_satisfies_monitor.
+
+Theorem c17_model_satisfies_monitor_disciplined :
+  forall chs cs,
+    Forall (covers chs) cs -> history_disciplined db_empty cs ->
+    C17_monitor_on (model_trace chs db_empty cs) = 0.
+Proof. exact model_satisfies_monitor_disciplined. Qed.
+Print Assumptions c17_model_satisfies_monitor_disciplined.
+
+Theorem c17_model_trace_agrees :
+  forall chs cs d, run_mismatch d (model_trace chs d cs) = false.
+Proof. exact model_trace_no_mismatch. Qed.
+Print Assumptions c17_model_trace_agrees.
+
+Theorem c17_case_link :
+  forall chs c,
+    case_shape chs (c_steps c) -> Forall (covers chs) (map cmd_of (c_steps c)) ->
+    C17_mismatch c = false -> good (C17_monitor c).
+Proof. exact case_link. Qed.
+Print Assumptions c17_case_link.
 
 (* ---- 7. the temporal reading is FALSE of the code: three refutations (known findings) -----------------
 
@@ -159,3 +239,22 @@ Example c17_embedded_leg_then_abort_is_fine :
   C17_mismatch r03_embedded_leg_then_abort_case = false /\ C17_monitor r03_embedded_leg_then_abort_case = 0.
 Proof. exact c17_embedded_leg_then_abort_ok. Qed.
 Print Assumptions c17_embedded_leg_then_abort_is_fine.
+
+(* executor-like walks (corpus/C17/r01, r02, r04): the model reproduces them and the monitor is silent;
+   in r01 a CommitChannelLeaderTransfer is accepted and the AbortChannelMigration after it is rejected *)
+Example c17_happy_paths_ok :
+  C17_mismatch r01_leader_transfer_happy_case = false /\ C17_monitor r01_leader_transfer_happy_case = 0
+  /\ C17_mismatch r02_replica_replace_happy_case = false /\ C17_monitor r02_replica_replace_happy_case = 0
+  /\ C17_mismatch r04_stale_proofs_rejected_case = false /\ C17_monitor r04_stale_proofs_rejected_case = 0.
+Proof. exact happy_paths_ok. Qed.
+Print Assumptions c17_happy_paths_ok.
+
+Example c17_happy_path_commits_and_rejects_abort :
+  existsb (fun s => match s with
+                    | ([CCommit _ _ _ _ _], Full o) => bres_eqb (o_res o) (BResults [0])
+                    | _ => false end) (c_raw_steps r01_leader_transfer_happy_case) = true
+  /\ existsb (fun s => match s with
+                       | ([CAbort _ _ _], Same r) => bres_eqb r (BResults [1])
+                       | _ => false end) (c_raw_steps r01_leader_transfer_happy_case) = true.
+Proof. exact happy_path_commits_and_rejects_abort. Qed.
+Print Assumptions c17_happy_path_commits_and_rejects_abort.
